@@ -53,10 +53,21 @@ class RuleInstance:
 
     def __exit__(self, et, ev, tb):
         if et is not None and issubclass(et, AnalysisError):
-            # re-raise with the rule id
-            raise AnalysisError("%s: %s" % (self.id, ev)) from ev
+            if self.violations:
+                # a violation already found in this rule wins over a later
+                # analysis problem (typically caused by the same edit)
+                self.ctx.note("%s: analysis stopped after reporting violations: %s" % (self.id, ev))
+                self.ctx.rules.append(self)
+                return True
+            # remember it and let the remaining rules run: a violation found
+            # by a later rule wins; otherwise the driver exits 2
+            self.ctx.analysis_errors.append("%s: %s" % (self.id, ev))
+            return True
         if et is None:
-            self.ctx._finish(self)
+            try:
+                self.ctx._finish(self)
+            except AnalysisError as e:
+                self.ctx.analysis_errors.append(str(e))
         return False
 
     def site(self, fn_or_loc, node: Optional[ast.AST] = None, note: str = ""):
@@ -97,13 +108,14 @@ class Context:
         self.tier = tier
         self.rules: List[RuleInstance] = []
         self.notes: List[str] = []
+        self.analysis_errors: List[str] = []
         self.t0 = time.time()
 
     def rule(self, rid: str, kind: str, desc: str, expected: int = 1) -> RuleInstance:
         return RuleInstance(self, rid, kind, desc, expected)
 
     def _finish(self, r: RuleInstance):
-        if len(r.sites) < r.expected:
+        if len(r.sites) < r.expected and not r.violations:
             raise AnalysisError(
                 "%s: rule matched %d site(s), fewer than the %d confirmed by hand (%s) - "
                 "the rule would pass vacuously; sites=%s" % (r.id, len(r.sites), r.expected, r.desc, r.sites))
